@@ -337,6 +337,14 @@ def run(tier):
     chk.adopt('C01.R8', 'the compared streams are the command\'s bytes '
               'decoded once, and each command runs its own private copy '
               '(shared with C09.R7, C09.R8)', sub9)
+    sub9b = Check('C09', 'proof', tier, [], [])
+    chk.guard(c09.rule_r4, sub9b, prog)
+    Check.restrict(sub9b, lambda wh, what: str(what) == 'cmd'
+                   or 'REMAINDER' in str(what))
+    chk.adopt('C01.R11', 'the command that is run is the command that was '
+              'given: the positional "cmd" takes the remainder of the '
+              'command line verbatim, none of its arguments is consumed as '
+              'a ddSMT option (shared with C09.R4)', sub9b)
     from .. import genreuse
     chk.guard(genreuse.rule, chk, prog, 'C01.R9',
               'what the writers render is consumed once: no one-shot '
